@@ -33,7 +33,7 @@ use std::time::Duration;
 pub static DEF: PropDef = PropDef {
     id: "C13",
     level: "exploration",
-    rule: "per case a child process runs a seeded workload of request groups (1..4 concurrent requests: multi-row mutation with references, update adding a row and a reference, deletion, room mutation adding a user, synchronised batch of signed rows and references through the library's own pull, recomputation) with one failpoint armed at its k-th hit after a warm-up: after_begin, before_msg, before_marks, before_commit, commit, after_commit, before_ack, after_ack, marks_write, node_write, edge_write; action abort (process death) or, where a statement can fail, injected error. Requests are bracketed START / ACK|FAIL in an append-only log. The parent reopens the folder with the library (which requests recomputation), waits for it and checks per request: acknowledged => every effect present; reported failed or never started => no effect; in flight at the death => all effects or none; after an injected error every later request is acknowledged; an acknowledged write is visible to the next query in the child; the stored daily log equals an independent recomputation over the stored rows. non-trivial = the failpoint fired; distinct = (failpoint, action, kinds of requests in flight)",
+    rule: "per case a child process runs a seeded workload of request groups (1..4 concurrent requests: multi-row mutation with references, update adding a row and a reference, deletion, room mutation adding a user, synchronised batch of signed rows and references through the library's own pull, recomputation) with one failpoint armed at its k-th hit after a warm-up: after_begin, before_msg, before_marks, before_commit, commit, after_commit, before_ack, after_ack, marks_write, node_write, edge_write; action abort (process death) or, where a statement can fail, injected error. Requests are bracketed START / ACK|FAIL in an append-only log. The parent reopens the folder with the library (which requests recomputation), waits for it and checks per request: acknowledged => every effect present; reported failed or never started => no effect; in flight at the death => all effects or none; after an injected error every later request is acknowledged; an acknowledged write is visible to the next query in the child; the stored daily log equals an independent recomputation over the stored rows. non-trivial = the failpoint fired; distinct = (failpoint, action, kinds of requests in flight) Every run that reaches its end finishes with a pipelined stream and with a write and a recomputation request placed in one transaction.",
     assumptions: &[
         "process death only: the operating system and the disk survive (WAL, synchronous=NORMAL), power loss is out of reach",
         "a synchronised batch is several write requests (rows, then references): all-or-nothing is checked per request, as the property states it",
